@@ -42,6 +42,8 @@ func init() {
 			"the only persistent effects observable are HTTP requests to the simulated server and calls to the storage driver; files written by --output-dir are out of scope (OutputDir is never set)",
 			"the `lookup` chart's API discovery request (GET /api/v1) is answered by a wrapper in this check and logged as a cluster read",
 			"flags WaitStrategy / Timeout / Description / Labels / values are held constant",
+			"ClientOnly with dry-run=server|none|false is Helm's documented way to let `lookup` reach the cluster: classified as not client-only (reads allowed, writes not)",
+			"memory driver: the pending-upgrade history is the crashed upgrade with the record's status put back to pending-upgrade (driver.Memory stores the caller's object, so the in-process failure marking reaches the record although the process died)",
 		},
 		RequiredFloors: requiredFloors,
 	})
@@ -53,6 +55,7 @@ var requiredFloors = []string{
 	"secret-hidden", "postrenderer-invoked", "subchart-rendered", "notes-rendered",
 	"err:pending", "err:no-deployed", "err:not-found",
 	"control-wrote:install", "control-wrote:upgrade", "control-wrote:rollback", "control-wrote:uninstall", "control-wrote:record", "control-wrote:store",
+	"control-cluster-write:install", "control-cluster-write:upgrade", "control-cluster-write:rollback", "control-cluster-write:uninstall",
 	"hist:deployed", "hist:deployed+failed", "hist:pending-upgrade", "hist:uninstalled-kept", "hist:superseded+deployed",
 }
 
@@ -427,10 +430,14 @@ func normLabel(e sim.Entry) string {
 	if e.Class == "store-write" {
 		return "record:" + strings.TrimPrefix(strings.Fields(l)[0], "store:")
 	}
-	if i := strings.IndexAny(l, "/@"); i > 0 && strings.Contains(l[:i], " ") {
-		l = l[:i]
+	verb, rest, ok := strings.Cut(l, " ")
+	if !ok || strings.HasPrefix(rest, "/") || strings.HasPrefix(l, "wait:") {
+		return l // "GET /version", "GET /api/v1", waiter calls
 	}
-	return l
+	if i := strings.IndexAny(rest, "/@"); i > 0 {
+		rest = rest[:i]
+	}
+	return verb + " " + rest
 }
 
 // judge is the whole oracle: it looks only at the request log of the
@@ -925,9 +932,15 @@ func run(c *core.Ctx) {
 				if err != nil || !has(mo.findings, f) {
 					mc, mo = cs, o
 				}
-				mins = append(mins, minimal{mc, f})
-				key := keyOf(mc, f)
-				c.Violate(prop, key, what(mc, f, mo), replayData{Case: mc, Key: key})
+				mf := f
+				for _, x := range mo.findings {
+					if x.Clause == f.Clause && x.Label == f.Label {
+						mf = x // the detail text of the minimised run
+					}
+				}
+				mins = append(mins, minimal{mc, mf})
+				key := keyOf(mc, mf)
+				c.Violate(prop, key, what(mc, mf, mo), replayData{Case: mc, Key: key})
 			}
 		}
 	}
